@@ -432,7 +432,7 @@ func (x *gen) next(phase string) string {
 	return "tickall"
 }
 
-var phases = []string{"healthy", "chaos", "partition", "crashy", "confchange", "snapshots", "transfer", "reads", "limits", "stall", "dsnap", "fig8snap", "dupvote", "snaplead", "rereads", "snapapply", "aba", "xferjoint", "soloread", "readhb", "selfack", "oddcalls", "snapinactive", "snapterm", "xferremoved", "cqreports", "jointcampaign", "twoccbatch"}
+var phases = []string{"healthy", "chaos", "partition", "crashy", "confchange", "snapshots", "transfer", "reads", "limits", "stall", "dsnap", "fig8snap", "dupvote", "snaplead", "rereads", "snapapply", "aba", "xferjoint", "soloread", "readhb", "selfack", "oddcalls", "snapinactive", "snapterm", "xferremoved", "cqreports", "jointcampaign", "twoccbatch", "snapfinish"}
 
 func (x *gen) isLeader(n *Node) bool {
 	if !n.alive || n.rn == nil {
@@ -765,6 +765,8 @@ func runRandom(s SchedCfg, nops int, tr *traceWriter) *Cluster {
 			x.directedJointCampaign()
 		case "twoccbatch":
 			x.directedTwoCCBatch()
+		case "snapfinish":
+			x.directedSnapFinish()
 		default:
 			for i, l := 0, 15+x.g.Intn(50); i < l && c.ops < nops; i++ {
 				c.exec(x.next(phase))
